@@ -162,9 +162,17 @@ def check_manifest(out: Out, bdir: str, rec: T.Optional[dict], cfg: dict) -> T.O
         flat_gen = [x for x in missing if flat and flat_twin(x[0]) in m.producer]
         # classifier 2: unity build; objects taken over from another target (extract_all_objects, the static
         # half of both_libraries) are computed as <target>-unityN.c.o although the target's sources cannot be
-        # unity-compiled (assembly): no statement produces that object
+        # unity-compiled (assembly): no statement produces that object.  (Fixed in /repo by 11c99b1; any other
+        # missing unity object -- e.g. a wrong count of unity files -- stays 'input-neither-exists-nor-produced'.)
+        def asm_in_same_private_dir(p: str) -> bool:
+            d = p.rsplit('/', 1)[0] + '/'
+            for e in m.edges:
+                if any(o.startswith(d) for o in e.outputs) and \
+                        any(i.lower().endswith(('.s', '.asm', '.ll', '.sx')) for i in e.inputs):
+                    return True
+            return False
         unity_ext = [x for x in missing if x not in flat_gen and unity_on and
-                     re.search(r'-unity\d+\.[^/]*\.o$', x[0])]
+                     re.search(r'-unity\d+\.[^/]*\.o$', x[0]) and asm_in_same_private_dir(x[0])]
         rest = [x for x in missing if x not in flat_gen and x not in unity_ext]
         if flat_gen:
             out.violation(FLATGEN_MECH, {'missing': flat_gen[:8], 'n_missing': len(flat_gen),
@@ -568,7 +576,74 @@ def probe_unity_asm() -> T.Tuple[dict, dict]:
     return files, {'targets': [], 'tests': [], 'features': ['probe:unity-asm-both']}
 
 
+def probe_same_name_prereqs() -> T.Tuple[dict, dict]:
+    """Distinct targets that share a NAME (same name in two subdirs; executable + custom target + library of one
+    name), every one of them non-default, used by exactly one test and one benchmark (as exe, in args:, in
+    depends:) and not a dependency of any other prerequisite.  Always configured with --layout mirror."""
+    files = {
+        'meson.build': _HEAD + "py = find_program('python3')\n"
+        "subdir('alpha')\nsubdir('beta')\n"
+        "fx_exe = executable('fixture', 'm.c', build_by_default: false)\n"
+        "fx_ct = custom_target('fixture', output: 'fixture.dat', command: [py, '-c', 'pass'])\n"
+        "fx_lib = shared_library('fixture', 'l.c', build_by_default: false)\n"
+        "dat_a = custom_target('data', output: 'data_a.txt', command: [py, '-c', 'pass'])\n"
+        "test('t check alpha', chk_a)\n"
+        "test('t check beta', chk_b)\n"
+        "test('t fixture exe', fx_exe)\n"
+        "test('t fixture arg', py, args: ['-c', 'pass', fx_ct])\n"
+        "test('t fixture dep', py, args: ['-c', 'pass'], depends: [fx_lib])\n"
+        "test('t data', py, args: ['-c', 'pass', dat_a], depends: [dat_b])\n"
+        "benchmark('b check beta', chk_b)\n"
+        "benchmark('b check alpha', chk_a)\n"
+        "benchmark('b fixture', py, args: ['-c', 'pass', fx_ct[0]], depends: [fx_lib, fx_exe])\n"
+        "benchmark('b data', py, args: ['-c', 'pass'], depends: [dat_b, dat_a])\n",
+        'alpha/meson.build': "chk_a = executable('check', 'm.c', build_by_default: false)\n",
+        'beta/meson.build': "chk_b = executable('check', 'm.c', build_by_default: false)\n"
+                            "dat_b = custom_target('data', output: 'data_b.txt', command: [py, '-c', 'pass'])\n",
+        'm.c': _MAIN, 'alpha/m.c': _MAIN, 'beta/m.c': _MAIN, 'l.c': 'int l(void) { return 0; }\n'}
+
+    def T_(i: str, kind: str, name: str, d: str, **kw: T.Any) -> dict:
+        t = {'id': i, 'kind': kind, 'name': name, 'dir': d, 'sp': '', 'default': False}
+        t.update(kw)
+        return t
+    t = [T_('s0', 'exe', 'check', 'alpha'), T_('s1', 'exe', 'check', 'beta'), T_('s2', 'exe', 'fixture', ''),
+         T_('s3', 'custom', 'fixture', '', outputs=['fixture.dat']), T_('s4', 'shared', 'fixture', ''),
+         T_('s5', 'custom', 'data', '', outputs=['data_a.txt']), T_('s6', 'custom', 'data', 'beta', outputs=['data_b.txt'])]
+    tests = [{'name': 't check alpha', 'benchmark': False, 'prereq': ['s0'], 'sp': ''},
+             {'name': 't check beta', 'benchmark': False, 'prereq': ['s1'], 'sp': ''},
+             {'name': 't fixture exe', 'benchmark': False, 'prereq': ['s2'], 'sp': ''},
+             {'name': 't fixture arg', 'benchmark': False, 'prereq': ['s3'], 'sp': ''},
+             {'name': 't fixture dep', 'benchmark': False, 'prereq': ['s4'], 'sp': ''},
+             {'name': 't data', 'benchmark': False, 'prereq': ['s5', 's6'], 'sp': ''},
+             {'name': 'b check beta', 'benchmark': True, 'prereq': ['s1'], 'sp': ''},
+             {'name': 'b check alpha', 'benchmark': True, 'prereq': ['s0'], 'sp': ''},
+             {'name': 'b fixture', 'benchmark': True, 'prereq': ['s3', 's4', 's2'], 'sp': ''},
+             {'name': 'b data', 'benchmark': True, 'prereq': ['s6', 's5'], 'sp': ''}]
+    return files, {'targets': t, 'tests': tests, 'features': ['probe:same-name-prereqs']}
+
+
+def probe_unity_counts() -> T.Tuple[dict, dict]:
+    """Objects taken over from unity-built targets (static half of library() under default_library=both,
+    extract_all_objects) for source counts around multiples of unity_size (4): 3, 4, 5, 8 and 1 sources.
+    Always configured with --unity=on -Ddefault_library=both."""
+    files: T.Dict[str, str] = {'m.c': _MAIN}
+    lines = [_HEAD.rstrip('\n')]
+    for n in (1, 3, 4, 5, 8):
+        srcs = []
+        for k in range(n):
+            fn = f'u{n}_{k}.c'
+            files[fn] = f'int u{n}_{k}(void) {{ return {k}; }}\n'
+            srcs.append(f"'{fn}'")
+        lines.append(f"l{n} = library('lib{n}', {', '.join(srcs)})")
+        lines.append(f"s{n} = static_library('st{n}', {', '.join(srcs)}, build_by_default: false)")
+        lines.append(f"executable('x{n}', 'm.c', objects: s{n}.extract_all_objects(recursive: false), link_with: l{n})")
+    files['meson.build'] = '\n'.join(lines) + '\n'
+    return files, {'targets': [], 'tests': [], 'features': ['probe:unity-extracted-object-counts']}
+
+
 PROBES: T.Dict[str, T.Callable[[], T.Tuple[dict, dict]]] = {
+    'same-name-prereqs': probe_same_name_prereqs,
+    'unity-counts': probe_unity_counts,
     'unity-asm': probe_unity_asm,
     'flat-generator': probe_flat_generator,
     'pipe': probe_pipe, 'rsp': probe_rsp, 'shlib-alias': probe_shlib_alias, 'private-dir': probe_private_dir,
@@ -620,7 +695,9 @@ def plan(chk: common.Check) -> T.List[dict]:
         cfgs = [('mirror', 'off', 'shared')] if quick else [('mirror', 'off', 'shared'), ('flat', 'on', 'both')]
         for l, u, d in cfgs:
             rsps = [None]
-            if name == 'unity-asm':
+            if name == 'same-name-prereqs':
+                l = 'mirror'
+            if name in ('unity-asm', 'unity-counts'):
                 u, d = 'on', 'both'
             if name == 'flat-generator':
                 l = 'flat'
